@@ -47,7 +47,7 @@ var initLikeFuncs = []string{"sigs.k8s.io/kustomize/kyaml/openapi.initSchema"}
 
 type gAccess struct {
 	pkg, fn, v string
-	kind       string // ARead | AWrite | AMapRead | AMapWrite | ARefUse | AEscape | AUnbalanced
+	kind       string // ARead | AWrite | AMapRead | AMapRange | AMapWrite | ARefUse | AEscape | AUnbalanced
 	ctx        []string
 	reach      bool
 	ord        int
@@ -625,11 +625,33 @@ func genGlobals(repo string) (string, error) {
 				var ops []*ssa.Value
 				ops = ins.Operands(ops)
 				isSyncCall := false
+				var skipVal ssa.Value
+				var cc0 *ssa.CallCommon
 				switch c := ins.(type) {
 				case *ssa.Call:
 					_, _, isSyncCall = syncCall(&c.Call)
+					cc0 = &c.Call
 				case *ssa.Defer:
 					_, _, isSyncCall = syncCall(&c.Call)
+					cc0 = &c.Call
+				case *ssa.Go:
+					cc0 = &c.Call
+				}
+				// sync.Map / atomic values held in a global: the container synchronises itself (no data race), but a
+				// Store / LoadOrStore / Delete / Swap / Add ... is a WRITE of process-wide state all the same
+				if cc0 != nil && !cc0.IsInvoke() && len(cc0.Args) > 0 {
+					if callee := cc0.StaticCallee(); callee != nil && callee.Pkg != nil && callee.Signature.Recv() != nil &&
+						(callee.Pkg.Pkg.Path() == "sync" && isSyncType(callee.Signature.Recv().Type(), "Map") || callee.Pkg.Pkg.Path() == "sync/atomic") {
+						if g, p, ok := globalPath(cc0.Args[0]); ok && strings.HasPrefix(g.Pkg.Pkg.Path(), kustModPrefix) {
+							kind := "AMapWrite"
+							switch callee.Name() {
+							case "Load", "Range":
+								kind = "AMapRead"
+							}
+							emit(ins, ctx, g, p+"[]", kind)
+							skipVal = cc0.Args[0] // the receiver is accounted for; other operands are checked below
+						}
+					}
 				}
 				for i, op := range ops {
 					if op == nil || *op == nil {
@@ -639,7 +661,7 @@ func genGlobals(repo string) (string, error) {
 					if !ok || !strings.HasPrefix(g.Pkg.Pkg.Path(), kustModPrefix) {
 						continue
 					}
-					if isSyncCall {
+					if isSyncCall || (skipVal != nil && *op == skipVal) {
 						continue
 					}
 					_ = i
@@ -667,7 +689,9 @@ func genGlobals(repo string) (string, error) {
 				}
 			case *ssa.Range:
 				if g, p, ok := through(x.X); ok {
-					emit(ins, ctx, g, p+"[]", "AMapRead")
+					// iteration over a map held in a global: the ORDER is randomised per run (a separate kind, so that an
+					// obligation can forbid it where the result must not depend on it)
+					emit(ins, ctx, g, p+"[]", "AMapRange")
 				}
 			case *ssa.MapUpdate:
 				if g, p, ok := through(x.Map); ok {
